@@ -126,7 +126,7 @@ func (v *FnVC) edge(b *ssa.BasicBlock, si int, cond string) {
 
 func (v *FnVC) alloc(x *ssa.Alloc) {
 	et := x.Type().(*types.Pointer).Elem()
-	if !x.Heap {
+	if !x.Heap || privateCell(x) {
 		key := "L:" + x.Name()
 		v.localSorts[key] = v.sortOf(et)
 		v.localTypes[key] = et
@@ -149,6 +149,38 @@ func (v *FnVC) alloc(x *ssa.Alloc) {
 		key := v.cellKey(et)
 		v.set(key, v.heapSort(key), fmt.Sprintf("(store %s %s %s)", v.get(key), r, v.w.sorts.zeroValue(et)))
 	}
+}
+
+// privateCell: a variable that go/ssa heap-allocates only because closures capture it;
+// its address never escapes otherwise and no closure writes it, so no call can change it.
+func privateCell(x *ssa.Alloc) bool {
+	if _, ok := x.Type().(*types.Pointer).Elem().Underlying().(*types.Array); ok {
+		return false
+	}
+	if x.Comment == "" || x.Comment == "complit" || x.Comment == "makeslice" || x.Comment == "varargs" || x.Comment == "new" {
+		return false
+	}
+	captured := false
+	for _, r := range *x.Referrers() {
+		switch y := r.(type) {
+		case *ssa.Store:
+			if y.Addr != ssa.Value(x) {
+				return false
+			}
+		case *ssa.UnOp, *ssa.DebugRef:
+		case *ssa.MakeClosure:
+			captured = true
+			cf, _ := y.Fn.(*ssa.Function)
+			for k, b := range y.Bindings {
+				if b == ssa.Value(x) && cf != nil && k < len(cf.FreeVars) && storesThrough(cf, cf.FreeVars[k]) {
+					return false
+				}
+			}
+		default:
+			return false
+		}
+	}
+	return captured
 }
 
 func (v *FnVC) checkPlace(p *Place, pos token.Pos) {
@@ -792,6 +824,7 @@ func (v *FnVC) panicInstr(x *ssa.Panic) {
 			allowed = append(allowed, v.specBool(cl.E, v.initEnv, cl))
 		}
 	}
+	v.runAnchored("panic#"+strconv.Itoa(v.panicCnt), x.Pos(), map[string]Term{"panic_value": v.val(x.X)})
 	v.behavClause = false
 	v.oblige("unreachable-panic", strconv.Itoa(v.panicCnt), or(allowed...), nil, !v.fc.Partial, "explicit panic must be unreachable (or allowed by panics-when)", x.Pos())
 }
